@@ -1,13 +1,14 @@
 """Property id -> check function(prop, tier, seed) -> exit status."""
 import json
 
-from . import checks_sampler, checks_ckpt, checks_bounds, checks_small
+from . import checks_sampler, checks_ckpt, checks_bounds, checks_small, checks_equiv
 
 CHECKS = {
     'C01': checks_sampler.check,
     'C02': checks_sampler.check,
     'C03': checks_sampler.check,
     'C10': checks_sampler.check,
+    'C11': checks_equiv.check_c11,
     'C12': checks_sampler.check,
     'C05': checks_ckpt.check_c05,
     'C06': checks_ckpt.check_c06,
